@@ -331,6 +331,9 @@ def element(ctx, depth):
     kinds = ["define", "condition", "repeat", "switch", "case", "content",
              "replace", "omit-tag", "attributes"]
     chosen = [k for k in kinds if d(st.integers(0, 9)) < want]
+    for banned in ctx.opts.get("ban", ()):
+        if banned in chosen:
+            chosen.remove(banned)
     if is_ns:
         el["ns"] = True
         el["name"] = d(st.sampled_from(["block", "omit-tag", "x"]))
